@@ -1,3 +1,43 @@
-Require Import Base Opcode Tables Ops Tree Gen.
-Example placeholder_C20 : True. Proof. exact I. Qed.
-Print Assumptions placeholder_C20.
+(* C20 — GenerateRandomExpr reports the true value of the expression it generates.
+   Statements about `generate`, the model of GenerateRandomExpr as a function of the raw random draws (every seed
+   is some stream of draws; tied to the Go function by a scripted rand.Source on every run). Proofs: GenProofs.v.
+   PARTIAL: (a) proved for three-valued evaluation (which is ordinary evaluation when no DNE variable occurs, as far
+   as TryEval's meaning is concerned); that Eval itself returns the value, and that the printed text compiles, is
+   checked on the real code on every run; (b) at level 0 the generated text is a bare leaf that prefix Compile
+   rejects - a recorded finding (known_findings.json). *)
+Require Import Base Opcode Tables Ops Tree Opt Flat Run TryFacts Gen GenProofs.
+Open Scope Z_scope.
+
+(* for every level, every stream of draws, both result types, every option combination and variable lists whose
+   recorded values have the declared type (distinct names): the reported result is the strong-Kleene value of the
+   generated expression under the recorded values (DNE variables unavailable); no sub-expression fails; the result
+   has the requested type or is DNE *)
+Theorem C20_reported_is_kleene : forall c, wf_cfg c -> forall isb level s,
+  let r := generate c isb level s in
+  kleene (gfetch c) no_custom (gcached c) (fst r) = Ok (snd r) /\
+  subs_ok no_custom (gfetch c) (gcached c) (fst r) /\ typed isb (snd r).
+Proof. exact generate_kleene. Qed.
+
+(* hence the tree-level meaning of TryEval returns exactly the reported result *)
+Theorem C20_reported_is_trysem : forall c, wf_cfg c -> forall isb level s,
+  let r := generate c isb level s in snd (trysem (gfetch c) no_custom (gcached c) (fst r)) = Ok (snd r).
+Proof. exact generate_trysem. Qed.
+
+(* the generator's own operator evaluation is the Kleene combination whenever that is defined *)
+Theorem C20_exec_is_comb : forall op vals r,
+  In op [ss "and"; ss "or"; ss "eq"; ss "not"; ss "+"; ss "-"; ss "*"; ss "/"; ss "%"] ->
+  comb no_custom op vals = Ok r -> exec op vals = r.
+Proof. exact exec_is_comb. Qed.
+
+(* non-vacuity *)
+Definition c0 : gencfg := {| g_var := true; g_cond := true; g_try := true;
+  g_nums := [(ss "n", VInt 3)]; g_bools := [(ss "b", VBool true)]; g_dnes := [(ss "d", VDNE)] |}.
+Example C20_ex_wf : wf_cfg c0.
+Proof.
+  unfold wf_cfg, known. cbn. repeat split; repeat constructor; cbn; try (eexists; reflexivity); try reflexivity;
+    intros H; repeat (destruct H as [H|H]; [discriminate|]); try destruct H.
+Qed.
+Example C20_ex : snd (generate c0 true 3 [5; 3; 2; 7; 1; 4; 9; 1; 60; 2; 0; 8; 1; 30; 4; 2; 40; 6; 3; 1; 1; 0; 2; 7]) <> VNil.
+Proof. vm_compute. discriminate. Qed.
+
+Print Assumptions C20_reported_is_kleene.
